@@ -305,13 +305,26 @@ func c17Classify(cs c17Case, got, want []byte, err error) string {
 		return scope + "/foreign-shard-accepted"
 	}
 	if err == nil && len(got) < len(want) && bytes.Equal(got, want[:len(got)]) {
-		// the recorded defect: every shard that is still readable simply ENDS (missing, truncated,
-		// unusable shard header). Shards that deliver a damaged frame are something else.
+		// the recorded defect: at the stripe where the read stops, every shard that is still
+		// open simply ENDS (missing, truncated, refused when opened). A shard that delivered a
+		// damaged frame in an EARLIER stripe was dropped there and does not change that; a
+		// damaged frame AT the stripe where the read stops cleanly is something else.
+		endStripe := -1
+		if cs.D > 0 {
+			endStripe = len(got) / (cs.D * ecStripe)
+		}
 		endsEarly := true
 		for _, f := range cs.Faults {
 			kc := kindClass(f.Kind)
-			if kc != "missing" && !strings.HasPrefix(kc, "trunc:") && !strings.HasPrefix(kc, "flip:shard-") &&
-				kc != "reorder:drop-first-frame" && kc != "reorder:duplicate-first-frame" { // length-changing: the shard is refused when it is opened
+			if kc == "missing" || strings.HasPrefix(kc, "trunc:") || strings.HasPrefix(kc, "flip:shard-") ||
+				kc == "reorder:drop-first-frame" || kc == "reorder:duplicate-first-frame" { // length-changing: the shard is refused when it is opened
+				continue
+			}
+			frame := 0 // reorder:swap-first-two-frames is noticed in stripe 0
+			if i := strings.Index(f.Kind, "@"); i >= 0 {
+				fmt.Sscanf(f.Kind[i+1:], "%d", &frame)
+			}
+			if frame >= endStripe {
 				endsEarly = false
 			}
 		}
